@@ -48,6 +48,7 @@ func checkC03(ctx *Ctx, r *Report, tier string) {
 	// of L1 for blended combinators; rule shared with C02 M11)
 	checkPolyKernel(ctx, r, "L2")
 	checkRoundedExtrusion(ctx, r, "L3")
+	checkConeDistance(ctx, r)
 	r.expectControl("L1", "verifCtlScaleNoDivide3D")
 }
 
@@ -883,4 +884,86 @@ func checkRoundedExtrusion(ctx *Ctx, r *Report, rule string) {
 		r.check(rule, name+"|region-formula", fn.Pos(), bad == "" && len(regions) == 4, fmt.Sprintf("%d (a, z) points over %d regions;%s", n, len(regions), bad))
 	}
 	r.floor(rule, 2)
+}
+
+// checkConeDistance (E3): the truncated cone is the solid of revolution of a trapezoid, and its
+// distance at (ρ, z) is the signed distance of that point to the trapezoid mirrored across the
+// axis - a convex polygon, whose distance has a textbook form (inside: −min over the edge lines;
+// outside: distance to the nearest edge segment). The composite Cone3D ∘ Evaluate is evaluated in
+// closed form for four sharp cones (round = 0; the inset of the rounded ones is E2) on a grid of
+// (ρ, z) with points in every region of the case analysis - above, below, inside, beside the
+// slope, beyond either rim and beyond the planes of the caps outside their radius - and compared
+// with the polygon distance.
+func checkConeDistance(ctx *Ctx, r *Report) {
+	fn := ctx.ssaFunc("sdf", "Cone3D")
+	if fn == nil {
+		r.undecided("E3", "Cone3D", 0, "not found")
+		return
+	}
+	alts, _ := ctorAltsFollow(ctx, fn)
+	if len(alts) == 0 {
+		r.undecided("E3", "Cone3D", fn.Pos(), "constructor builds nothing")
+		return
+	}
+	savedCap := termCap
+	termCap = 200000
+	res, _, err := composeMethod(ctx, alts[len(alts)-1], "Evaluate")
+	termCap = savedCap
+	t, _ := res.(*Term)
+	if err != nil || t == nil || t.Op == "top" {
+		r.undecided("E3", "Cone3D", fn.Pos(), "cannot compose constructor and Evaluate in closed form")
+		return
+	}
+	names := []string{paramName(fn, 0), paramName(fn, 1), paramName(fn, 2), paramName(fn, 3)}
+	polyDist := func(px, py float64, vs [][2]float64) float64 {
+		// convex, counter-clockwise
+		inside := true
+		best := math.Inf(1)
+		bestIn := math.Inf(1)
+		for i := range vs {
+			a, b := vs[i], vs[(i+1)%len(vs)]
+			ex, ey := b[0]-a[0], b[1]-a[1]
+			l := math.Hypot(ex, ey)
+			if l == 0 {
+				continue
+			}
+			// signed distance to the edge line (positive outside)
+			sd := ((px-a[0])*ey - (py-a[1])*ex) / l
+			if sd > 0 {
+				inside = false
+			}
+			bestIn = math.Min(bestIn, -sd)
+			tt := ((px-a[0])*ex + (py-a[1])*ey) / (l * l)
+			tt = math.Max(0, math.Min(1, tt))
+			best = math.Min(best, math.Hypot(px-(a[0]+tt*ex), py-(a[1]+tt*ey)))
+		}
+		if inside {
+			return -bestIn
+		}
+		return best
+	}
+	bad := ""
+	n := 0
+	for _, c := range [][3]float64{{4, 20, 2}, {10, 5, 1}, {6, 2, 5}, {8, 3, 3}} {
+		h, r0, r1 := c[0], c[1], c[2]
+		vs := [][2]float64{{-r0, -h / 2}, {r0, -h / 2}, {r1, h / 2}, {-r1, h / 2}}
+		rmax := math.Max(r0, r1)
+		for _, rho := range []float64{0, 0.25 * rmax, 0.9 * math.Min(r0, r1), 1.1 * math.Min(r0, r1), 0.95 * rmax, 1.05 * rmax, 1.5 * rmax, 3 * rmax} {
+			for _, z := range []float64{-2.5 * h, -0.75 * h, -0.55 * h, -0.45 * h, -0.1 * h, 0.2 * h, 0.45 * h, 0.55 * h, 0.8 * h, 2 * h} {
+				env := map[string]float64{names[0]: h, names[1]: r0, names[2]: r1, names[3]: 0, "p.X": rho * 0.6, "p.Y": rho * 0.8, "p.Z": z}
+				got, ok := evalFloat(t, env)
+				if !ok {
+					r.undecided("E3", "Cone3D", fn.Pos(), "the composite is not a closed form that can be evaluated: "+shortKey(t.Key(), 200))
+					return
+				}
+				want := polyDist(rho, z, vs)
+				n++
+				if math.Abs(got-want) > 1e-9*(1+math.Abs(want)) && len(bad) < 400 {
+					bad += fmt.Sprintf(" Cone3D(%g, %g, %g, 0) at ρ=%.4g z=%.4g: %.6g, distance to the cone %.6g;", h, r0, r1, rho, z, got, want)
+				}
+			}
+		}
+	}
+	r.check("E3", "Cone3D|distance-on-a-grid-of-all-regions", fn.Pos(), bad == "", fmt.Sprintf("%d points over 4 sharp cones against the signed distance to the mirrored trapezoid;%s", n, bad))
+	r.floor("E3", 1)
 }
